@@ -233,6 +233,8 @@ func init() {
 				return
 			}
 		}
+		// with a storage failure the outcome (an error) must not depend on the schedule either
+		runFaultSched(c, "C11", "error", nil, sameAsRoot)
 	})
 	check.Register("C18/sched", func(c *check.Ctx) {
 		// the operator monitor under every bounded interleaving of the drivers
